@@ -245,7 +245,7 @@ pub fn spec_strategy() -> impl Strategy<Value = ElfSpec> {
             0u8..3,
         ),
         (
-            proptest::option::weighted(0.7, proptest::collection::vec(prop_oneof![10 => (0x21u8..0x7f).prop_map(|c| c as char), 1 => Just('\u{e9}'), 1 => Just('\u{1f600}')], 0..24).prop_map(|v| v.into_iter().collect::<String>())),
+            proptest::option::weighted(0.7, prop_oneof![10 => proptest::collection::vec(prop_oneof![10 => (0x21u8..0x7f).prop_map(|c| c as char), 1 => Just('\u{e9}'), 1 => Just('\u{1f600}')], 0..24).prop_map(|v| v.into_iter().collect::<String>()), 1 => (250usize..260).prop_map(|n| "s".repeat(n)), 1 => (500usize..1500).prop_map(|n| "L".repeat(n))]),
             proptest::bool::weighted(0.7),
             proptest::bool::weighted(0.7),
             0u8..6,
